@@ -179,9 +179,16 @@ func handleFallbackData(s *Session, h header, buf []byte) (int, bool, error) {
 	fallbackSlice := newBufferSlice(nil, data[fallbackDataHeader:], 0, false)
 	fallbackSlice.writeIndex = len(data[fallbackDataHeader:])
 	atomic.AddUint64(&s.stats.fallbackReadCount, 1)
+	// Whatever the peer put into the queue before it wrote this event has to reach its stream first, even
+	// if the polling event announcing it has not been written yet: a stream that fell back to the socket
+	// sent its earlier data through the queue.
+	_, retErr, fatal := consumeRecvQueue(s, nil)
+	if fatal != nil {
+		return eventLen, false, fatal
+	}
 	stream := s.getStream(seqID, streamState(status))
 	if stream == nil {
-		return eventLen, false, nil
+		return eventLen, false, retErr
 	}
 	return eventLen, false, s.handleStreamMessage(stream, bufferSliceWrapper{fallbackSlice: fallbackSlice}, streamState(status))
 }
@@ -281,27 +288,42 @@ func closeReceivedFds(fds []int) {
 	}
 }
 
+// consumeRecvQueue hands every element that is in the receive queue right now to its stream.
+// It returns the number of elements consumed, the result of the last handleStreamMessage call (lastErr
+// unchanged if there was none) and, as fatal, a failure to read an element's buffer, after which the
+// caller has to give up. It does not touch the queue's working flag.
+func consumeRecvQueue(s *Session, lastErr error) (consumed int, retErr error, fatal error) {
+	retErr = lastErr
+	for ele, err := s.queueManager.recvQueue.pop(); err == nil; ele, err = s.queueManager.recvQueue.pop() {
+		consumed++
+		state := streamState(ele.status & 0xff)
+		stream := s.getStream(ele.seqID, state)
+		if stream == nil && state == streamOpened {
+			slice, err := s.bufferManager.readBufferSlice(ele.offsetInShmBuf)
+			if err != nil {
+				return consumed, retErr, err
+			}
+			s.bufferManager.recycleBuffers(slice)
+			continue
+		}
+		if stream == nil {
+			continue
+		}
+		retErr = s.handleStreamMessage(stream, bufferSliceWrapper{offset: ele.offsetInShmBuf}, state)
+	}
+	return consumed, retErr, nil
+}
+
 func handlePolling(s *Session, hdr header, buf []byte) (int, bool, error) {
 	atomic.AddUint64(&s.stats.recvPollingEventCount, 1)
 	consumedCount := 0
 	var retErr error
 	for {
-		for ele, err := s.queueManager.recvQueue.pop(); err == nil; ele, err = s.queueManager.recvQueue.pop() {
-			consumedCount++
-			state := streamState(ele.status & 0xff)
-			stream := s.getStream(ele.seqID, state)
-			if stream == nil && state == streamOpened {
-				slice, err := s.bufferManager.readBufferSlice(ele.offsetInShmBuf)
-				if err != nil {
-					return headerSize, false, err
-				}
-				s.bufferManager.recycleBuffers(slice)
-				continue
-			}
-			if stream == nil {
-				continue
-			}
-			retErr = s.handleStreamMessage(stream, bufferSliceWrapper{offset: ele.offsetInShmBuf}, state)
+		n, err, fatal := consumeRecvQueue(s, retErr)
+		consumedCount += n
+		retErr = err
+		if fatal != nil {
+			return headerSize, false, fatal
 		}
 
 		runtime.Gosched()
@@ -364,14 +386,19 @@ func handleStreamClose(s *Session, hdr header, buf []byte) (int, bool, error) {
 	id := binary.BigEndian.Uint32(buf[:4])
 	s.logger.debugf("receive peer stream[%d] goaway.", id)
 
+	// the stream's data that the peer put into the queue before it wrote this event comes first
+	_, retErr, fatal := consumeRecvQueue(s, nil)
+	if fatal != nil {
+		return headerSize + idLen, false, fatal
+	}
 	stream := s.getStreamById(id)
 	if stream == nil {
 		s.logger.warnf("missing stream: %d", id)
-		return headerSize + idLen, false, nil
+		return headerSize + idLen, false, retErr
 	}
 
 	stream.halfClose()
-	return headerSize + idLen, false, nil
+	return headerSize + idLen, false, retErr
 }
 
 func protocolTrace(h header, body []byte, send bool) {
